@@ -1134,10 +1134,11 @@ pub fn format_stmt(ctx: &Context, stmt: &Stmt, shape: Shape) -> Stmt {
 }
 
 pub fn format_stmt_no_trivia(ctx: &Context, stmt: &Stmt, shape: Shape) -> Stmt {
-    assert!(
-        matches!(ctx.should_format_node(stmt), FormatNode::Normal),
-        "!FormatNode::None for format_stmt_no_trivia"
-    );
+    // A statement that must not be formatted is left as is. This can only happen when the enclosing node carries no
+    // position information (and was therefore assumed to be inside the formatting range)
+    if !matches!(ctx.should_format_node(stmt), FormatNode::Normal) {
+        return stmt.to_owned();
+    }
 
     match stmt {
         Stmt::LocalAssignment(stmt) => {
